@@ -240,8 +240,21 @@ pub fn t_misc2() -> String {
     o.push_str(&"tEsT".chars().flat_map(|c| c.to_uppercase()).collect::<String>()); o.push_str(&"ß".to_uppercase());
     o
 }
+pub fn t_patterns() -> String {
+    let s = "  ab12Cd,e f;g  ";
+    let mut o = String::new();
+    o.push_str(&s.find(char::is_uppercase).unwrap().to_string()); o.push_str(&s.rfind(|c: char| c.is_ascii_digit()).unwrap().to_string());
+    o.push_str(s.trim_start_matches(char::is_whitespace)); o.push('|'); o.push_str(s.trim_end_matches(|c: char| c == ' ' || c == 'g'));
+    o.push('|'); o.push_str(&s.split(char::is_whitespace).filter(|x| !x.is_empty()).collect::<Vec<_>>().join("/"));
+    o.push_str(b(s.trim().starts_with(char::is_alphabetic))); o.push_str(b(s.contains(char::is_numeric))); o.push_str(b(s.trim().ends_with(|c| c == 'g')));
+    o.push_str(s.trim().strip_prefix(|c: char| c == 'a').unwrap()); o.push_str(&s.matches(char::is_alphabetic).count().to_string());
+    o.push_str(&s.split_once(|c| c == ',' || c == ';').unwrap().1.len().to_string());
+    o.push_str(&s.char_indices().filter(|(_, c)| c.is_ascii_punctuation()).map(|(i, _)| i.to_string()).collect::<Vec<_>>().join(","));
+    o.push_str(&s.replace(char::is_whitespace, "_")); o.push_str(&s.splitn(2, |c| c == ',').last().unwrap().trim().to_string());
+    o
+}
 pub const ALL: &[(&str, fn() -> String)] = &[
     ("t_char_ascii", t_char_ascii), ("t_eq_ignore_case", t_eq_ignore_case), ("t_split_at", t_split_at), ("t_splitn", t_splitn),
     ("t_option_misc", t_option_misc), ("t_result_misc", t_result_misc), ("t_iter_misc", t_iter_misc), ("t_vec_misc", t_vec_misc),
-    ("t_path_misc", t_path_misc), ("t_str_misc", t_str_misc), ("t_collections", t_collections), ("t_int_misc", t_int_misc), ("t_misc2", t_misc2),
+    ("t_path_misc", t_path_misc), ("t_str_misc", t_str_misc), ("t_collections", t_collections), ("t_int_misc", t_int_misc), ("t_misc2", t_misc2), ("t_patterns", t_patterns),
 ];
